@@ -98,7 +98,8 @@ def validate_hist(scr, hist, broker, tag):
 
 
 def corrupt_hist(hist, outp, n=10):
-    """Binding self-test: reverse a composite of two or more events / drop one of its members."""
+    """Binding self-test: duplicate a member of a composite of two or more events / drop one of its members
+    (reversing is no corruption when the two calls overlapped)."""
     k = 0
     with open(outp, "w") as f:
         for line in open(hist):
@@ -108,13 +109,13 @@ def corrupt_hist(hist, outp, n=10):
                 if r["k"] != "resp":
                     continue
                 if len(r.get("ret") or []) == 2 and len(r["ret"][1]) >= 2:
-                    r["ret"][1] = r["ret"][1][::-1] if k % 2 == 0 else r["ret"][1][:-1]
+                    r["ret"][1] = (r["ret"][1][:-1] + [r["ret"][1][0]]) if k % 2 == 0 else r["ret"][1][:-1]
                     done = True
                     break
                 big = [c for c in (r.get("sent") or []) if len(c) >= 2]
                 if big:
                     j = r["sent"].index(big[0])
-                    r["sent"][j] = big[0][::-1] if k % 2 == 0 else big[0][1:]
+                    r["sent"][j] = (big[0][:-1] + [big[0][0]]) if k % 2 == 0 else big[0][1:]
                     done = True
                     break
             if done:
@@ -155,7 +156,7 @@ def conc_traces(vh, scr, prop, seed, quick, out):
             acc2, ids2, res2 = validate_hist(scr, cp, True, "selftest")
             if acc2:
                 raise Broken("gated self-test: corrupted histories accepted: %s" % sorted(acc2)[:5])
-            out.notes.append("binding self-test: %d histories with one composite reversed or truncated were all rejected by GatedTrace" % k)
+            out.notes.append("binding self-test: %d histories with a member of one composite duplicated or dropped were all rejected by GatedTrace" % k)
     out.coverage["concurrent_histories_validated"] = total
     return total
 
